@@ -110,6 +110,22 @@ def run_op(thunk):
         return ["ok", canon_out(r)]
     except BaseException as e: return ["err", type(e).__name__]
 
+FRESH_PROCESS = r"""
+import sys, io, json, datetime
+from opcua_tools.ua_graph import UAGraph
+paths, uri, inc = json.loads(sys.argv[1])
+G = UAGraph.from_file_list(paths)
+T0 = datetime.datetime(2024, 1, 2, 3, 4, 5, tzinfo=datetime.timezone.utc)
+s = io.StringIO(); G.write_nodeset(s, uri, include_outgoing_instance_level_references=inc, last_modified=T0, publication_date=T0)
+sys.stdout.write(s.getvalue())
+"""
+def fresh_process_write(paths, uri, inc):
+    """the document a NEW interpreter writes for this namespace of these files: nothing any earlier call left in this process can reach it"""
+    import subprocess, sys, json
+    p = subprocess.run([sys.executable, "-W", "ignore", "-c", FRESH_PROCESS, json.dumps([list(paths), uri, bool(inc)])], capture_output=True, text=True, timeout=600,
+                       env=dict(os.environ))
+    return ["ok", NOWRE.sub('PublicationDate="NOW"', p.stdout)] if p.returncode == 0 else ["err"]
+
 def check(ctx):
     rng = ctx.rng
     ctx.rule = ("histories of 4-8 (quick) / up to 40 (thorough) read-only operations on real graphs built from generated document sets: write_nodeset with every argument choice "
@@ -128,7 +144,13 @@ def check(ctx):
                 # fixed first case: two non-base namespaces that refer to each other, exported one after the other (independent of the seed)
                 for fs in range(200):
                     frng = random.Random(1500 + fs)
-                    g, ds = writeprops.make_graph(frng, True, hostile=False, clash=False)
+                    def zeros(g_):
+                        # equal-but-distinct values in different namespaces: what one write leaves behind must not colour the next
+                        from opcua_tools import ua_data_types as T
+                        for u_, v_ in zip(g_.uris, [T.UADouble(0.0), T.UADouble(-0.0), T.UAFloat(-0.0)]):
+                            k_ = (u_, "s", "Zero"); g_.nodes[k_] = dict(cls="UAVariable", bname=(u_, "Zero"), display="Zero", desc=None, attrs={}, value=v_); g_.order.append(k_)
+                            g_.refs.append(((nsgen.UA, "i", "85"), k_, (nsgen.UA, "i", "35")))
+                    g, ds = writeprops.make_graph(frng, True, hostile=False, clash=False, extra=zeros)
                     if any(a[0] != b[0] and a[0] in g.uris and b[0] in g.uris and a in g.nodes and b in g.nodes for a, b, _ in g.refs): break
             else:
                 g, ds = writeprops.make_graph(rng, True, hostile=rng.random() < 0.5, clash=rng.random() < 0.7)
@@ -183,6 +205,11 @@ def check(ctx):
                 rng.setstate(rng2_state)
                 out2 = run_op(thunk2)
                 if out != out2: ctx.fail("C15/result-depends-on-history:" + desc[0], case, "%r gave a different result after %d earlier operations" % (desc, step))
+                # the fixed first case: the writes of the opening sweep are also compared with the write of a fresh interpreter (process-wide state)
+                if ci == 0 and step < len(opening) and desc[0] == "write" and out[0] == "ok":
+                    fp = fresh_process_write(paths, desc[1], desc[2])
+                    if fp[0] == "ok" and ["value", repr(fp[1])] != out[1]:
+                        ctx.fail("C15/result-depends-on-history:write", case, "%r after %d earlier operations differs from the document a fresh interpreter writes" % (desc, step))
                 if desc[0] == "write":
                     reqs.append(writeprops.write_request(tables, desc[1], desc[2], desc[3], "out.xml"))
                     # where the code splices text into markup unescaped (recorded findings of C05-C07) the element-level writer model does not apply
